@@ -258,6 +258,18 @@ EthAddr.BROADCAST = EthAddr(b"\xff\xff\xff\xff\xff\xff")
 
 
 
+def _dotted_quad (text):
+  """
+  inet_aton() for three dots and four numbers only
+
+  inet_aton() itself also takes short forms ("10.1") and ignores whatever
+  follows white space.
+  """
+  if text.count('.') != 3 or text.split() != [text]:
+    raise OSError("illegal IP address string: " + repr(text))
+  return socket.inet_aton(text)
+
+
 class IPAddr (_AddrBase):
   """
   Represents an IPv4 address.
@@ -279,11 +291,11 @@ class IPAddr (_AddrBase):
     if isinstance(addr, (bytes, bytearray)):
       if len(addr) != 4:
         # dotted quad
-        self._value = struct.unpack('i', socket.inet_aton(addr.decode()))[0]
+        self._value = struct.unpack('i', _dotted_quad(addr.decode()))[0]
       else:
         self._value = struct.unpack('i', addr)[0]
     elif isinstance(addr, str):
-      self._value = struct.unpack('i', socket.inet_aton(addr))[0]
+      self._value = struct.unpack('i', _dotted_quad(addr))[0]
     elif isinstance(addr, IPAddr):
       self._value = addr._value
     elif isinstance(addr, int):
